@@ -180,7 +180,10 @@ func gateEngineCases(c *Ctx) {
 			acc := account.NewManager(parent.Hash(), n.DB).GetCanonicalAccount(x.addr)
 			_, e1 := acc.GetAssetIdState(x.id)
 			_, e2 := acc.GetAssetCode(x.code)
-			if ok = e1 == nil && e2 == nil; !ok {
+			// TransferAssetTx also asks the database-wide code -> issuer index, which the store's background writer fills some time after
+			// the block is stable (under load: later than the canonical account): without it the honest positive control is refused
+			_, e3 := n.DB.GetAssetCode(x.code)
+			if ok = e1 == nil && e2 == nil && e3 == nil; !ok {
 				time.Sleep(25 * time.Millisecond)
 			}
 		}
